@@ -48,6 +48,12 @@ func runC09(c *Ctx) {
 	if nExp < 9 {
 		r.Unresolved("anchors", "ads.authenticatedMap", fmt.Sprintf("expected >= 9 exported methods, found %d", nExp))
 	}
+	// (0) the map keeps its raw keys, its tree nodes and its size in sub-realms obtained with
+	// WithExtendedRealm from the store it is handed: sibling sub-realms of the map store never share
+	// the bytes of their realm
+	if pkv := c.Load("kvstore"); pkv != nil {
+		checkExtendedRealm(r, pkv, "kvstore/mapdb", "mapDB")
+	}
 	// (1) locks
 	checkGuards(r, p, "lock/guarded-by", []GuardRow{
 		{Pkg: pkg, Type: "authenticatedMap", Mutex: "mutex", Fields: []string{"tree"},
